@@ -104,14 +104,78 @@ def _on_alarm(signum, frame):
 CASE_TIMEOUT_S = float(os.environ.get("VERIF_CASE_TIMEOUT_S", "20"))
 
 
+class _Heart:
+    """Shared-memory heartbeat of a shard worker.  SIGALRM cannot interrupt a case
+    that is stuck inside one C call (a huge integer power, say); the parent sees the
+    start time of the running case, kills the worker when it is overdue, and restarts
+    the shard with that case on the skip list."""
+
+    SIZE = 1 << 18
+
+    def __init__(self, ctxm):
+        self.t0 = ctxm.Value("d", 0.0, lock=False)
+        self.n = ctxm.Value("i", 0, lock=False)
+        self.buf = ctxm.Array("c", self.SIZE, lock=False)
+        self.skip = set()
+
+    def begin(self, key):
+        if len(key) <= self.SIZE:
+            self.buf[:len(key)] = key
+            self.n.value = len(key)
+        else:
+            self.n.value = -1
+        self.t0.value = time.time()
+
+    def end(self):
+        self.t0.value = 0.0
+
+    def current(self):
+        n = self.n.value
+        return bytes(self.buf[:n]) if n >= 0 else None
+
+
+_HEART = None
+
+
+def _case_key(sub, spec):
+    return json.dumps([sub, spec], sort_keys=True, default=repr).encode()
+
+
+def _hang_result(module, timeout, how=""):
+    # the reference side is bounded by construction; a case that does not
+    # finish is a hang of the code under test (violation) only where the
+    # module says so, otherwise it is skipped and counted (inconclusive)
+    r = Result()
+    if getattr(module, "TIMEOUT_IS_FAIL", False):
+        return r.fail("hang", f"case did not finish within {timeout}s{how}")
+    return r.skip("case-timeout")
+
+
 def run_check(module, sub, spec):
     """Run one comparison; never raises except HarnessError."""
+    hb = _HEART
+    if hb is None:
+        return _run_check(module, sub, spec)
+    key = _case_key(sub, spec)
+    if key in hb.skip:
+        return _hang_result(module, getattr(module, "CASE_TIMEOUT_S", CASE_TIMEOUT_S),
+                            " (uninterruptible: the worker had to be killed)")
+    hb.begin(key)
+    try:
+        return _run_check(module, sub, spec)
+    finally:
+        hb.end()
+
+
+def _run_check(module, sub, spec):
     import signal
     fn = module.CHECKS[sub]
     timeout = getattr(module, "CASE_TIMEOUT_S", CASE_TIMEOUT_S)
     try:
         old = signal.signal(signal.SIGALRM, _on_alarm)
-        signal.setitimer(signal.ITIMER_REAL, timeout)
+        # periodic after the first shot: an exception raised by the handler can get
+        # lost where the interpreter cannot propagate it (a __del__, a C callback)
+        signal.setitimer(signal.ITIMER_REAL, timeout, 1.0)
         try:
             with warnings.catch_warnings():
                 warnings.simplefilter("ignore")
@@ -120,13 +184,7 @@ def run_check(module, sub, spec):
             signal.setitimer(signal.ITIMER_REAL, 0)
             signal.signal(signal.SIGALRM, old)
     except CaseTimeout:
-        # the reference side is bounded by construction; a case that does not
-        # finish is a hang of the code under test (violation) only where the
-        # module says so, otherwise it is skipped and counted (inconclusive)
-        r = Result()
-        if getattr(module, "TIMEOUT_IS_FAIL", False):
-            return r.fail("hang", f"case did not finish within {timeout}s")
-        return r.skip("case-timeout")
+        return _hang_result(module, timeout)
     except HarnessError:
         raise
     except RecursionError:
@@ -437,9 +495,13 @@ class Ctx:
         }
 
 
-def _worker(args):
+def _worker(args, heart=None, skip=()):
+    global _HEART
     modname, tier, seed, shard, nshards, budget_s = args
     warnings.simplefilter("ignore")
+    if heart is not None:
+        heart.skip = set(skip)
+        _HEART = heart
     try:
         import resource
         lim = int(os.environ.get("VERIF_MEM_GB", "6")) << 30
@@ -453,6 +515,122 @@ def _worker(args):
         return ("ok", ctx.partial())
     except BaseException as exc:
         return ("harness-error", "".join(traceback.format_exception(exc)))
+
+
+def _shard_main(args, heart, skip, conn):
+    try:
+        out = _worker(args, heart, skip)
+    except BaseException as exc:        # noqa: BLE001
+        out = ("harness-error", "".join(traceback.format_exception(exc)))
+    try:
+        conn.send(out)
+    finally:
+        conn.close()
+    os._exit(0)
+
+
+GRACE_S = 15.0
+MAX_RESTARTS = 6
+
+
+def _run_shards(module, args):
+    """One process per shard, watched: a worker whose current case is overdue by more
+    than the case timeout plus a grace period (SIGALRM did not get through) is killed
+    and its shard restarted with that case on the skip list.  -> list of (status,
+    payload) like Pool.map(_worker, args)."""
+    ctxm = multiprocessing.get_context("fork")
+    timeout = getattr(module, "CASE_TIMEOUT_S", CASE_TIMEOUT_S)
+    n = len(args)
+    outs = [None] * n
+    skips = [[] for _ in range(n)]
+    restarts = [0] * n
+    live = {}
+
+    def start(i):
+        heart = _Heart(ctxm)
+        rd, wr = ctxm.Pipe(duplex=False)
+        p = ctxm.Process(target=_shard_main, args=(args[i], heart, skips[i], wr))
+        p.daemon = True
+        p.start()
+        wr.close()
+        live[i] = (p, rd, heart)
+
+    for i in range(n):
+        start(i)
+    while live:
+        time.sleep(0.05)
+        for i in list(live):
+            p, rd, heart = live[i]
+            if rd.poll():
+                try:
+                    outs[i] = rd.recv()
+                except (EOFError, OSError) as exc:
+                    outs[i] = ("harness-error", f"shard {i}: result lost ({exc!r})")
+                p.join(10)
+                if p.is_alive():
+                    p.kill()
+                del live[i]
+                continue
+            if not p.is_alive():
+                if rd.poll():
+                    continue            # picked up in the next round
+                outs[i] = ("harness-error",
+                           f"shard {i} died without a result (exit code {p.exitcode})")
+                del live[i]
+                continue
+            t0 = heart.t0.value
+            if t0 and time.time() - t0 > timeout + GRACE_S:
+                key = heart.current()
+                p.kill()
+                p.join()
+                del live[i]
+                if key is None or restarts[i] >= MAX_RESTARTS:
+                    outs[i] = ("harness-error",
+                               f"shard {i}: a case hangs uninterruptibly and cannot be "
+                               "skipped" if key is None else
+                               f"shard {i}: more than {MAX_RESTARTS} uninterruptible hangs")
+                    continue
+                skips[i].append(key)
+                restarts[i] += 1
+                start(i)
+    return outs
+
+
+def _guarded(fn, hard_timeout_s):
+    """fn() in a forked child -> ("ok", value) | ("hung", None) | ("error", text)."""
+    ctxm = multiprocessing.get_context("fork")
+    rd, wr = ctxm.Pipe(duplex=False)
+
+    def body():
+        try:
+            out = ("ok", fn())
+        except BaseException as exc:    # noqa: BLE001
+            out = ("error", "".join(traceback.format_exception(exc)))
+        try:
+            wr.send(out)
+        finally:
+            os._exit(0)
+
+    p = ctxm.Process(target=body)
+    p.daemon = True
+    p.start()
+    wr.close()
+    t_end = time.time() + hard_timeout_s
+    while time.time() < t_end:
+        if rd.poll(0.1):
+            try:
+                out = rd.recv()
+            except (EOFError, OSError):
+                out = ("error", "result lost")
+            p.join(5)
+            if p.is_alive():
+                p.kill()
+            return out
+        if not p.is_alive() and not rd.poll():
+            return ("error", f"child died (exit code {p.exitcode})")
+    p.kill()
+    p.join()
+    return ("hung", None)
 
 
 def _merge(parts):
@@ -562,7 +740,17 @@ def _main(module, prop, tier, seed, replay, t0):
 
     # -- replay of a single file -------------------------------------------
     if replay is not None:
-        rp, res = replay_file(module, replay)
+        timeout = getattr(module, "CASE_TIMEOUT_S", CASE_TIMEOUT_S)
+        st, val = _guarded(lambda: replay_file(module, replay), timeout + GRACE_S)
+        if st == "hung":
+            with open(replay) as f:
+                rp = json.load(f)
+            res = _hang_result(module, timeout, " (uninterruptible)")
+        elif st == "error":
+            print("HARNESS-ERROR: replay failed:\n" + val)
+            return 2
+        else:
+            rp, res = val
         bad = [f for f in res.fails if known_match(rp["sub"], rp["spec"], f) is None]
         if bad:
             for f in bad:
@@ -619,12 +807,7 @@ def _main(module, prop, tier, seed, replay, t0):
         "VERIF_BUDGET_S", getattr(module, "BUDGET_S", {}).get(
             tier, 240 if tier == "quick" else 3000)))
     args = [(module.__name__, tier, seed, s, jobs, budget) for s in range(jobs)]
-    if jobs == 1:
-        outs = [_worker(args[0])]
-    else:
-        ctxm = multiprocessing.get_context("fork")
-        with ctxm.Pool(jobs) as pool:
-            outs = pool.map(_worker, args, chunksize=1)
+    outs = _run_shards(module, args)
     for st, payload in outs:
         if st != "ok":
             print("HARNESS-ERROR: worker failed:\n" + payload)
@@ -632,22 +815,41 @@ def _main(module, prop, tier, seed, replay, t0):
     m = _merge([pl for _, pl in outs])
 
     # -- shrink one representative per bucket ------------------------------
-    shrink_deadline = time.time() + 90
+    reps = {}
     for bucket in sorted(m["fails"]):
         lst = sorted(m["fails"][bucket], key=lambda t: (t[0], json.dumps(t[2], default=repr)))
-        size, sub, spec, kind, detail = lst[0]
+        reps[bucket] = lst[0]
 
-        def still_fails(cand, sub=sub, kind=kind):
-            res = run_check(module, sub, cand)
-            return any(f.kind == kind and known_match(sub, cand, f) is None
-                       for f in res.fails)
-        try:
-            small = shrink(spec, still_fails, max_seconds=max(
-                0.5, min(15.0, shrink_deadline - time.time())), module=module)
-        except Exception:
-            small = spec
-        res = run_check(module, sub, small)
-        det = next((f.detail for f in res.fails if f.kind == kind), detail)
+    def shrink_all():
+        out = {}
+        shrink_deadline = time.time() + 90
+        for bucket, (size, sub, spec, kind, detail) in reps.items():
+            if kind == "hang":
+                continue        # every attempt would cost a full timeout
+
+            def still_fails(cand, sub=sub, kind=kind):
+                res = run_check(module, sub, cand)
+                return any(f.kind == kind and known_match(sub, cand, f) is None
+                           for f in res.fails)
+            try:
+                small = shrink(spec, still_fails, max_seconds=max(
+                    0.5, min(15.0, shrink_deadline - time.time())), module=module)
+            except Exception:
+                small = spec
+            res = run_check(module, sub, small)
+            det = next((f.detail for f in res.fails if f.kind == kind), detail)
+            out[bucket] = (small, det)
+        return out
+
+    shrunk = {}
+    if reps:
+        # in a child with a hard deadline: a shrink candidate may hang the code under
+        # test in a way SIGALRM cannot interrupt; then the unshrunk cases are reported
+        st, val = _guarded(shrink_all, 90 + 15 * len(reps) + 60)
+        if st == "ok":
+            shrunk = val
+    for bucket, (size, sub, spec, kind, detail) in reps.items():
+        small, det = shrunk.get(bucket, (spec, detail))
         path = _write_replay(prop, sub, small, kind, det)
         print(f"  [{bucket}] x{m['fail_counts'][bucket]}: {det[:400]}")
         print(f"VIOLATION property={prop} replay={path}")
